@@ -38,7 +38,7 @@ CHECKS = {
  "C10": dict(level="exploration", design="§4 C10",
    technique="runtime monitoring: reference retention rule over the recorded version DAG and decoded delete stamps vs the bucket listing after vacuum; idempotence by listing equality; late-merge resurrection probe; single-failure injection at every mutating request followed by a repeated vacuum and an orphan-node scan; final everything-superseded vacuum",
    text="After each successful vacuum the decoded current tree must have lost exactly the markers of rows deleted strictly before the cutoff and kept the others with unchanged delete times; the removed version and node objects must equal the reference rule (a version goes iff all its successors were created before the cutoff, a node iff only reclaimed versions reach it); a second identical vacuum must leave names and hashes of all objects unchanged; a late merge of an older live copy must not resurrect a row whose marker was kept.",
-   note="The rule is evaluated on the DAG including the version the vacuum itself commits; garbage nodes no version ever referenced are not demanded to go; boundaries are probed with cutoffs equal to recorded stamps."),
+   note="The rule is evaluated on the DAG including the version the vacuum itself commits; garbage nodes no version ever referenced are not demanded to go; boundaries are probed with cutoffs equal to recorded stamps. A failed vacuum that had already deleted nodes cannot be completed by repeating it: known finding D35."),
  "C05": dict(level="exploration", design="§4 C05",
    technique="runtime monitoring: native shadow table inside the same SQLite transaction, bucket listing before/after, request-log counting of version PUTs, decoded stamps per transaction, injected storage errors in COMMIT",
    text="Programs of 15-45 transactions (failing statements, in-transaction reads, COMMIT / ROLLBACK / COMMIT hitting an injected storage error) on trees of 1-4 levels including small sparse ones: rows and root/ listing after any rollback must equal those before BEGIN, committing transactions write exactly one version object (none when nothing changed), all stamps assigned by one transaction - also across a second s3db table that joins it - are one value inside the BEGIN..COMMIT bracket (or the explicit write_time), the table is re-opened with another entries_per_node in half of the programs, and the connection is usable after a failed commit.",
